@@ -29,8 +29,10 @@ type loadOp struct {
 
 func request(content string) *gpb.SubscribeRequest {
 	return &gpb.SubscribeRequest{Request: &gpb.SubscribeRequest_Subscribe{Subscribe: &gpb.SubscriptionList{
-		Prefix:       &gpb.Path{Origin: "openconfig"},
-		Subscription: []*gpb.Subscription{{Path: &gpb.Path{Elem: []*gpb.PathElem{{Name: content}}}}},
+		Prefix: &gpb.Path{Origin: "openconfig"},
+		// a list element with three keys: maps with several entries must compare
+		// equal whatever order they are iterated or serialised in
+		Subscription: []*gpb.Subscription{{Path: &gpb.Path{Elem: []*gpb.PathElem{{Name: content}, {Name: "protocol", Key: map[string]string{"identifier": "BGP", "name": "bgp", "vrf": "default"}}}}}},
 	}}}
 }
 
@@ -60,7 +62,7 @@ func universe(three bool) []loadOp {
 							for n, t := range map[string]string{"t1": t1, "t2": t2, "t3": t3} {
 								if t != "" {
 									p := strings.Split(t, "|")
-									c.Target[n] = &tpb.Target{Addresses: []string{p[0]}, Request: p[1]}
+									c.Target[n] = &tpb.Target{Addresses: []string{p[0]}, Request: p[1], Meta: map[string]string{"site": "s1", "role": "edge", "rack": "r7"}}
 								}
 							}
 							return c
@@ -71,7 +73,7 @@ func universe(three bool) []loadOp {
 		}
 	}
 	base := func() *tpb.Configuration {
-		return &tpb.Configuration{Request: map[string]*gpb.SubscribeRequest{"r1": request("A")}, Target: map[string]*tpb.Target{"t1": {Addresses: []string{"x"}, Request: "r1"}}}
+		return &tpb.Configuration{Request: map[string]*gpb.SubscribeRequest{"r1": request("A")}, Target: map[string]*tpb.Target{"t1": {Addresses: []string{"x"}, Request: "r1", Meta: map[string]string{"site": "s1", "role": "edge", "rack": "r7"}}}}
 	}
 	shapes = append(shapes,
 		loadOp{name: "nil configuration", cfg: func() *tpb.Configuration { return nil }},
@@ -137,7 +139,7 @@ func newSys(ops []loadOp, withBase, share bool) *sys {
 		Delete: func(n string) { s.calls = append(s.calls, call{kind: "delete", name: n}) },
 	}
 	if withBase {
-		base := &tpb.Configuration{Revision: s.rev, Request: map[string]*gpb.SubscribeRequest{"r1": request("A")}, Target: map[string]*tpb.Target{"t1": {Addresses: []string{"x"}, Request: "r1"}}}
+		base := &tpb.Configuration{Revision: s.rev, Request: map[string]*gpb.SubscribeRequest{"r1": request("A")}, Target: map[string]*tpb.Target{"t1": {Addresses: []string{"x"}, Request: "r1", Meta: map[string]string{"site": "s1", "role": "edge", "rack": "r7"}}}}
 		c, err := target.NewConfigWithBase(h, base)
 		if err != nil {
 			panic(err)
